@@ -291,6 +291,8 @@ def run(ctx, rep):
                     p_ = pm[id(cur)]
                     if isinstance(p_, ast.If) and isinstance(p_.test, ast.Name) and any(cur is x or any(y is cur for y in ast.walk(x)) for x in p_.body):
                         guarded = guarded or (p_.test.id in g.params)
+                    if isinstance(p_, ast.IfExp) and isinstance(p_.test, ast.Name) and p_.body is cur:
+                        guarded = guarded or (p_.test.id in g.params)
                     cur = p_
                 rep.ob("M5", guarded, st.node, g, construct="call of modernize_symbol", how="executed only under the compatible flag",
                        witness=None if guarded else "legacy symbols are rewritten even without compatible=True", key="rewrite-guarded/" + g.name, nontrivial=True)
@@ -339,6 +341,14 @@ def check_flag(ctx, rep, f, name, mod, seen):
             ok = body_ok and not p.orelse
             if p.orelse and body_ok:
                 why = "an else-branch is controlled by the compatible flag"
+        elif isinstance(p, ast.IfExp) and p.test is n:
+            # <rewrite(x)> if flag else x
+            b, o = p.body, p.orelse
+            s_ = sites.get(id(b)) if isinstance(b, ast.Call) else None
+            if s_ and mod in s_.callees and len(b.args) == 1 and unparse(b.args[0]) == unparse(o):
+                ok = True
+            else:
+                why = "conditional expression on the flag is not `modernize_symbol(x) if flag else x`"
         elif isinstance(p, ast.Call) and n in p.args or isinstance(p, ast.keyword):
             call = p if isinstance(p, ast.Call) else parents.get(id(p))
             s = sites.get(id(call))
